@@ -10,7 +10,7 @@
                                        Query/Constraint constructors and (chain = 1) through the
                                        iterator API
      (6 history add)                   ADD ANNOTATION ... { sub }: query_mut, then the direct calls
-     (7 history x sub nosub)           DELETE ANNOTATION ?x { sub } (nosub = 1: without sub-query)
+     (7 history x sub nosub)           DELETE ANNOTATION ?x { sub } (nosub = 1: without sub-query, an error)
    query  = (name rt (cst ...) lim opt sub)   rt 0 ANNOTATION 1 DATA 2 KEY 3 RESOURCE 4 DATASET 5 TEXT
             lim = () | (bg en)   sub = () | (query)
    cst    = (0 tok) ID | (1 ref meta) ANNOTATION | (2 ref meta) RESOURCE | (3 ref meta) DATASET
@@ -214,8 +214,8 @@ Definition run_C08 (x : sx) : sx :=
       let sub := query_of_sx 3 (sx_nth 3 x) in
       let nosub := sx_bool (sx_nth 4 x) in
       if nosub then
-        (* DELETE without sub-query: unreachable!() in query_mut; nothing is specified for it *)
-        L [triple (L [A (-1)]) (L [A 0; state_sx s false]) 1]
+        (* DELETE without sub-query: a QuerySyntaxError, the store stays as it is *)
+        L [triple (L [A 0; state_sx s true]) (L [A 0; state_sx s false]) 0]
       else
         let k := known_class s sub in
         let s2 := spec_delete s v sub in
